@@ -47,7 +47,7 @@ def declare(reg):
     S.declare_union('ColorSpec', [('c_idx', [('i', 'int')]), ('c_rgb', [('rgb', 'RGB')])])
     S.declare_record('ConfigR', [
         ('left_recursion', 'bool'), ('memoization', 'bool'), ('prune_memos_on_cut', 'bool'), ('parseinfo', 'bool'),
-        ('ignorecase', 'bool'), ('trace', 'bool'), ('keywords', 'strset'), ('semantics', 'int'),
+        ('ignorecase', 'bool'), ('trace', 'bool'), ('keywords', 'strset'), ('semantics', 'int'), ('heart', 'Val'),
     ])
     reg.classes['DictD'] = {'mro': [], 'fields': {'dkeys': 'strset', 'dvals': 'strmap'}, 'isa': ['dict']}
     for attr, srt in {'attr': 'str', 'id': 'str', 'ctx': 'opaque:AstNode', 'func': 'opaque:AstNode', 'args': 'seq[opaque:AstNode]'}.items():
@@ -71,6 +71,8 @@ def declare(reg):
         'wf': ['len(self.states.state_stack) >= 1', 'spec_frame_wf(self.states.state_stack[-1])',
                'self.states.state_stack[-1].cursor.len == self.textlen'],
         'isa': ['Ctx', 'ParseContext', 'ParserEngine', 'ParserCore'],
+        # outside every contract's view (progress callback state, error-reporting bookkeeping, the text object behind the cursor)
+        'untracked': ['heart', 'lastbeat_time', 'lastbeat_pos', '_furthest_exception', 'input'],
     }
     # grammar-model nodes are opaque objects; attributes are uninterpreted functions of the node
     for attr, srt in {'exp': 'opaque:Model', 'sep': 'opaque:Model', 'name': 'str', 'token': 'str', 'pattern': 'str',
@@ -93,7 +95,7 @@ def declare(reg):
     reg.class_alias = {
         'ParseState': 'Frame', 'AST': 'ASTD', 'Alert': 'AlertR', 'RuleInfo': 'RuleInfoR',
         'MemoKey': 'MemoKeyR', 'RuleResult': 'RuleResultR', 'ParseStateStack': 'States',
-        'TextLinesCursor': 'Cursor',
+        'TextLinesCursor': 'Cursor', 'ParserConfig': 'ConfigR',
     }
     reg.record_defaults = {'AlertR': {'level': 1, 'message': ''}}
 
@@ -136,6 +138,12 @@ def declare(reg):
         'isa': ['ParseState'],
     }
     reg.classes['PosLine'] = {'mro': ['tatsu/input/infos.py:PosLine'], 'isa': ['PosLine']}
+    # text objects: `TextLines` built by bound() from a str; any other Text implementation is an opaque TextObj
+    reg.classes['Text'] = {'isa': ['Text'], 'opaque_kinds': ['TextObj']}
+    reg.classes['NullText'] = {'isa': ['NullText']}
+    reg.classes['NullCursor'] = {'isa': ['NullCursor']}
+    reg.classes['TextLines'] = {'mro': ['tatsu/input/textlines.py:TextLines'], 'fields': {}, 'isa': ['Text', 'TextLines']}
+    reg.classes['ConfigR'] = {'mro': ['tatsu/config.py:ParserConfig', 'tatsu/util/configs.py:Config'], 'isa': ['ParserConfig', 'Config']}
     reg.classes['RuleInfoR'] = {'mro': ['tatsu/contexts/infos.py:RuleInfo'], 'isa': ['RuleInfo']}
     reg.classes['MemoKeyR'] = {'mro': ['tatsu/contexts/infos.py:MemoKey'], 'isa': ['MemoKey']}
     reg.classes['RuleResultR'] = {'mro': ['tatsu/contexts/infos.py:RuleResult'], 'isa': ['RuleResult']}
